@@ -433,7 +433,7 @@ func (e *c09Env) run(b behaviour, serial uint32, bind string) c09Result {
 	}()
 	select {
 	case <-done:
-	case <-time.After(e.T + 10*time.Second):
+	case <-liveAfter(e.T + 10*time.Second):
 		res.hung = true
 		res.elapsed = time.Since(start)
 	}
@@ -779,7 +779,7 @@ func c09(c *Ctx) {
 				if err == nil {
 					c.Res.Violate("C09:listen:bind-failure:no-error", "Listen returned nil although its listen address was in use", nil, caseNo)
 				}
-			case <-time.After(3 * time.Second):
+			case <-liveAfter(3 * time.Second):
 				c.Res.Violate("C09:listen:bind-failure:hang", "Listen did not return although its listen address was in use", nil, caseNo)
 				q <- os.Interrupt
 			}
@@ -1141,7 +1141,7 @@ func c09ListenCycle(c *Ctx, i int) {
 		if err != nil {
 			c.Res.Violate("C09:listen:stop-error", "Listen returned an error when stopped: "+err.Error(), nil, int64(i))
 		}
-	case <-time.After(5 * time.Second):
+	case <-liveAfter(5 * time.Second):
 		close(stopFlood)
 		flood.Wait()
 		c.Res.Violate("C09:listen:hang", fmt.Sprintf("Listen did not return within 5 s of the stop signal (datagrams still arriving: %v)", i%3 == 1), nil, int64(i))
@@ -1230,7 +1230,7 @@ func c09SlowConnect(c *Ctx, caseNo int64, serial uint32) {
 		case elapsed > T+1500*time.Millisecond:
 			c.Res.Violate("C09:tcp:tcp-slow-connect:late-return", fmt.Sprintf("TCP connection established only on the second SYN retransmission (about 3 s), peer never answers: the call returned after %v, the bound is T + 1.5 s (T=%v) - the time spent connecting is part of the timeout", elapsed.Round(time.Millisecond), T), w, caseNo)
 		}
-	case <-time.After(T + 10*time.Second):
+	case <-liveAfter(T + 10*time.Second):
 		c.Res.Violate("C09:tcp:tcp-slow-connect:hang", fmt.Sprintf("slow TCP connect then silence: the call did not return within T+10s (T=%v)", T), nil, caseNo)
 	}
 	close(finish)
